@@ -47,10 +47,19 @@ ASSUMPTIONS = [
     "values of the terms of the textbook formula over the tensor (>= 1e-30)",
     "a case that exceeds its time budget inside sympy is inconclusive for the"
     " keys not yet computed (class 'inconclusive:budget'), never a violation",
-    "failures of a key whose upstream key is already wrong are attributed to "
-    "the upstream key when the key equals its defining formula applied to "
-    "aurel's own upstream values (class 'inherited:*'); the upstream failure "
-    "itself is always reported",
+    "a wrong key is reported only when every key it is computed from "
+    "(Gamma_udd <- gup; Gamma_down, Riemann_uddd <- Gamma_udd; Riemann_down, "
+    "Ricci_down <- Riemann_uddd or the Christoffels, by branch; RicciS, "
+    "Einstein_down <- Ricci_down) is right; otherwise it is counted as "
+    "'inherited:*' and the wrong upstream key is reported instead (keys "
+    "computed as dependencies are read from rel.data - what a request for "
+    "them returns - and checked too). A defect of a downstream key that only "
+    "shows in configurations where its upstream is wrong stays masked until "
+    "the upstream defect is fixed",
+    "discriminator tags: 'nondiagonal' = the same check passes on the "
+    "diagonal part of the failing metric and on a fixed diagonal 2D metric; "
+    "'simplify=False' = it passes with simplify=True on the diagonal part "
+    "(probe limited to 6 s); tags are omitted when undecided",
 ]
 BUDGET_S = {"quick": 80, "thorough": 1100}
 
@@ -162,98 +171,29 @@ class Unevaluable(Exception):
     pass
 
 
-class Dual:
-    """value + gradient (forward-mode differentiation, exact in Fractions);
-    used only to differentiate aurel's own Christoffel expressions when a
-    failure has to be attributed."""
-    __slots__ = ("v", "d")
-
-    def __init__(self, v, d):
-        self.v, self.d = v, d
-
-    def __add__(self, o):
-        if isinstance(o, Dual):
-            return Dual(self.v + o.v, tuple(a + b for a, b in zip(self.d,
-                                                                  o.d)))
-        return Dual(self.v + o, self.d)
-    __radd__ = __add__
-
-    def __neg__(self):
-        return Dual(-self.v, tuple(-a for a in self.d))
-
-    def __sub__(self, o):
-        return self + (-o)
-
-    def __rsub__(self, o):
-        return (-self) + o
-
-    def __mul__(self, o):
-        if isinstance(o, Dual):
-            return Dual(self.v * o.v, tuple(a * o.v + self.v * b
-                                            for a, b in zip(self.d, o.d)))
-        return Dual(self.v * o, tuple(a * o for a in self.d))
-    __rmul__ = __mul__
-
-    def __pow__(self, k):
-        if k == 0:
-            return Dual(self.v ** 0, tuple(0 * a for a in self.d))
-        f = k * self.v ** (k - 1)
-        return Dual(self.v ** k, tuple(f * a for a in self.d))
-
-    def chain(self, fv, dfv):
-        return Dual(fv, tuple(dfv * a for a in self.d))
-
-    def __eq__(self, o):
-        return self.v == (o.v if isinstance(o, Dual) else o)
-
-    __hash__ = None
-
-
 _FUNCS = {
-    sp.exp: (lambda v: MP.exp(v), lambda v, f: f),
-    sp.sin: (lambda v: MP.sin(v), lambda v, f: MP.cos(v)),
-    sp.cos: (lambda v: MP.cos(v), lambda v, f: -MP.sin(v)),
-    sp.tan: (lambda v: MP.tan(v), lambda v, f: 1 + f * f),
-    sp.cot: (lambda v: MP.cot(v), lambda v, f: -(1 + f * f)),
-    sp.sec: (lambda v: MP.sec(v), lambda v, f: f * MP.tan(v)),
-    sp.csc: (lambda v: MP.csc(v), lambda v, f: -f * MP.cot(v)),
-    sp.sinh: (lambda v: MP.sinh(v), lambda v, f: MP.cosh(v)),
-    sp.cosh: (lambda v: MP.cosh(v), lambda v, f: MP.sinh(v)),
-    sp.tanh: (lambda v: MP.tanh(v), lambda v, f: 1 - f * f),
-    sp.log: (lambda v: MP.log(v), lambda v, f: 1 / v),
+    sp.exp: MP.exp, sp.log: MP.log, sp.sin: MP.sin, sp.cos: MP.cos,
+    sp.tan: MP.tan, sp.cot: MP.cot, sp.sec: MP.sec, sp.csc: MP.csc,
+    sp.sinh: MP.sinh, sp.cosh: MP.cosh, sp.tanh: MP.tanh,
 }
 
 
 class Evaluator:
     """Evaluate sympy expressions at one point with a shared sub-expression
-    memo.  exact=True: Fractions (only +,-,*, integer powers allowed);
-    exact=False: 50-digit mpmath.  grad=True: values are Dual numbers that
-    also carry the exact gradient with respect to the coordinates."""
+    memo.  exact=True: Fractions (only +, *, integer powers and rational /
+    binary-float constants allowed); exact=False: 50-digit mpmath."""
 
-    def __init__(self, X, point, exact, grad=False):
+    def __init__(self, X, point, exact):
         self.exact = exact
         self.memo = {}
-        n = len(X)
-        self.env = {}
-        for i, (x, p) in enumerate(zip(X, point)):
-            v = (Fraction(p) if exact
-                 else MP.mpf(p.numerator) / p.denominator)
-            if grad:
-                v = Dual(v, tuple(self.num(1 if i == j else 0)
-                                  for j in range(n)))
-            self.env[x] = v
+        self.env = {x: (Fraction(p) if exact
+                        else MP.mpf(p.numerator) / p.denominator)
+                    for x, p in zip(X, point)}
 
     def num(self, p, q=1):
         if self.exact:
             return Fraction(p, q)
         return MP.mpf(p) / q if q != 1 else MP.mpf(p)
-
-    def fun(self, fd, arg):
-        f, df = fd
-        if isinstance(arg, Dual):
-            fv = f(arg.v)
-            return arg.chain(fv, df(arg.v, fv))
-        return f(arg)
 
     def __call__(self, e):
         memo = self.memo
@@ -288,8 +228,7 @@ class Evaluator:
             elif self.exact:
                 raise Unevaluable(f"non-integer power {e}")
             else:
-                r = self.fun(_FUNCS[sp.exp], self(x) * self.fun(
-                    _FUNCS[sp.log], self(b)))
+                r = MP.power(self(b), self(x))
         elif self.exact:
             raise Unevaluable(f"{type(e).__name__} in exact mode")
         elif e is sp.E:
@@ -297,7 +236,7 @@ class Evaluator:
         elif e is sp.pi:
             r = +MP.pi
         elif type(e) in _FUNCS:
-            r = self.fun(_FUNCS[type(e)], self(e.args[0]))
+            r = _FUNCS[type(e)](self(e.args[0]))
         else:
             raise Unevaluable(f"{type(e).__name__}")
         memo[e] = r
@@ -423,16 +362,6 @@ def riemann_from(Gam, dGam, n):
     return [[[[dGam[k][i][j][h] - dGam[h][i][j][k]
                + sum(Gam[i][k][m] * Gam[m][j][h] for m in R)
                - sum(Gam[i][h][m] * Gam[m][j][k] for m in R)
-               for h in R] for k in R] for j in R] for i in R]
-
-
-def riemann_down_from(Gamd, dGamd, Gam, n):
-    """R_ijkh = d_k Gam_ijh - d_h Gam_ijk + Gam_mih Gam^m_jk
-    - Gam_mik Gam^m_jh  (Gam_abc = g_ad Gam^d_bc)."""
-    R = range(n)
-    return [[[[dGamd[k][i][j][h] - dGamd[h][i][j][k]
-               + sum(Gamd[m][i][h] * Gam[m][j][k] for m in R)
-               - sum(Gamd[m][i][k] * Gam[m][j][h] for m in R)
                for h in R] for k in R] for j in R] for i in R]
 
 
@@ -758,7 +687,9 @@ def index_of(flat_index, n, rank):
 
 
 # ---------------------------------------------------------------------------
-# attribution: own defect of a key, or inherited from a wrong upstream key
+# attribution: a wrong key is reported only when every key it is computed
+# from is right; otherwise the failure is inherited and the upstream key (whose
+# value sits in rel.data and is exactly what a request returns) is reported
 
 DIRECT_UP = {
     "gdown": [], "gup": [], "gdet": [],
@@ -794,48 +725,15 @@ def closure(key):
     return seen
 
 
-def _orbit_ok(got, step, n, rank, kind, close):
-    """Every component of `got` equals the step value at some member of its
-    symmetry orbit (aurel may compute one representative and fill the others
-    with the tensor's symmetries)."""
-    R = range(n)
-    if kind == "none":
-        return all(close(a, b) for a, b in zip(flatten(got, rank),
-                                               flatten(step, rank)))
-    if kind == "sym2":
-        return all(close(got[i][j], step[i][j]) or close(got[i][j], step[j][i])
-                   for i in R for j in R)
-    # riemann_down
-    for i in R:
-        for j in R:
-            for k in R:
-                for h in R:
-                    v = got[i][j][k][h]
-                    if (i == j or k == h) and close(v, 0 * v):
-                        continue
-                    c = [step[i][j][k][h], -step[j][i][k][h],
-                         -step[i][j][h][k], step[j][i][h][k],
-                         step[k][h][i][j], -step[h][k][i][j],
-                         -step[k][h][j][i], step[h][k][j][i]]
-                    if not any(close(v, s) for s in c):
-                        return False
-    return True
-
-
 class Checker:
-    """Evaluates keys of one Session against the reference, with
-    attribution.  verdict[key] in {'ok','own','inherited','unchecked'}."""
+    """Evaluates keys of one Session against the reference."""
 
-    def __init__(self, sess, ref, points, exact, note=None):
+    def __init__(self, sess, ref, points, exact):
         self.s, self.ref, self.points, self.exact = sess, ref, points, exact
-        self.note = note
-        self.vals = {}       # key -> evaluated values per point (aurel's)
-        self.e2e = {}        # key -> None (ok) | observed dict
+        self.e2e = {}        # key -> None (ok) | "skip" | observed dict
         self.problem = {}
         self.worst_rel = 0.0
-        self._d = {}
 
-    # -- end-to-end ---------------------------------------------------------
     def e2e_check(self, key, obj):
         if key in self.e2e:
             return self.e2e[key]
@@ -848,7 +746,6 @@ class Checker:
             self.e2e[key] = (dict(problem=problem) if problem == "shape"
                              else "skip")
             return self.e2e[key]
-        self.vals[key] = vals
         exact_eq = self.exact and not has_float
         res = None
         for p, v in enumerate(vals):
@@ -876,98 +773,6 @@ class Checker:
         r = self.e2e_check(key, obj)
         return r is not None and r != "skip"
 
-    # -- step-wise ----------------------------------------------------------
-    def _A(self, key, p):
-        if key not in self.vals:
-            obj = self.s.rel.data.get(key)
-            if obj is None:
-                return None
-            self.e2e_check(key, obj)
-        v = self.vals.get(key)
-        return None if v is None else v[p]
-
-    def _dA(self, key, p):
-        """d_c of aurel's own rank-3 tensor `key` at point p, as
-        dA[c][i][j][k]; exact forward-mode differentiation of the expression
-        aurel returned."""
-        if key not in self._d:
-            obj = self.s.rel.data.get(key)
-            n = self.s.n
-            fl = flat_exprs(obj, n, 3) if obj is not None else None
-            if fl is None:
-                self._d[key] = None
-            else:
-                out = []
-                for pt in self.points:
-                    ev = Evaluator(self.s.X, pt, self.exact, grad=True)
-                    zero = tuple(ev.num(0) for _ in range(n))
-                    duals = [ev(e) for e in fl]
-                    grads = [d.d if isinstance(d, Dual) else zero
-                             for d in duals]
-                    out.append([nested([g[c] for g in grads], n, 3)
-                                for c in range(n)])
-                self._d[key] = out
-        d = self._d[key]
-        return None if d is None else d[p]
-
-    def step_consistent(self, key):
-        """Does aurel's value of `key` equal the key's defining formula
-        applied to aurel's own upstream values?  (None = cannot tell)"""
-        n = self.s.n
-        base = self.s.base(key)
-        for p in range(len(self.points)):
-            jet = self.ref.jets[p]
-            G, dG, half = jet["G"], jet["dG"], jet["half"]
-            got = self.vals[key][p]
-            sc = self.ref.scale[p][key]
-
-            def close(a, b, sc=sc):
-                return _f(abs(a - b)) <= RTOL * sc
-            try:
-                cands, kind = [], "none"
-                if key == "Gamma_udd":
-                    cands = [christoffel(self._A("gup", p), dG, n, half)]
-                elif key == "Gamma_down":
-                    cands = [lower_first(G, self._A("Gamma_udd", p), n, 3)]
-                elif key == "Riemann_uddd":
-                    cands = [riemann_from(self._A("Gamma_udd", p),
-                                          self._dA("Gamma_udd", p), n)]
-                elif base == "Riemann_down:from-uddd":
-                    kind = "riemann_down"
-                    cands = [lower_first(G, self._A("Riemann_uddd", p), n, 4)]
-                elif base == "Riemann_down:direct-branch":
-                    kind = "riemann_down"
-                    Gam = self._A("Gamma_udd", p)
-                    cands = [lower_first(G, riemann_from(
-                        Gam, self._dA("Gamma_udd", p), n), n, 4)]
-                    Gd = self._A("Gamma_down", p)
-                    if Gd is not None:
-                        cands.append(riemann_down_from(
-                            Gd, self._dA("Gamma_down", p), Gam, n))
-                elif base == "Ricci_down:from-uddd":
-                    kind = "sym2"
-                    cands = [ricci_from(self._A("Riemann_uddd", p), n)]
-                elif base == "Ricci_down:direct-branch":
-                    kind = "sym2"
-                    cands = [ricci_from(riemann_from(
-                        self._A("Gamma_udd", p), self._dA("Gamma_udd", p),
-                        n), n)]
-                elif key == "RicciS":
-                    cands = [scalar_from(self._A("gup", p),
-                                         self._A("Ricci_down", p), n)]
-                elif key == "Einstein_down":
-                    kind = "sym2"
-                    cands = [einstein_from(G, self._A("Ricci_down", p),
-                                           self._A("RicciS", p), n, half)]
-                else:
-                    return None
-            except (TypeError, Unevaluable, ZeroDivisionError):
-                return None
-            if not any(_orbit_ok(got, c, n, RANK[key], kind, close)
-                       for c in cands):
-                return False
-        return True
-
     def verdict(self, key, obj):
         r = self.e2e_check(key, obj)
         if r is None:
@@ -979,13 +784,7 @@ class Checker:
         ups = [u for u in DIRECT_UP[self.s.base(key)] if self.upstream_bad(u)]
         if not ups:
             return "own", r
-        sc = self.step_consistent(key)
-        if sc:
-            return "inherited", dict(r, upstream=ups)
-        r = dict(r, upstream_also_wrong=ups,
-                 note="not the defining formula applied to aurel's own "
-                      "upstream values either")
-        return "own", r
+        return "inherited", dict(r, upstream=ups)
 
 
 # ---------------------------------------------------------------------------
@@ -1014,48 +813,45 @@ def run_textbook(case, tier, budget=None):
     points = points_of(case)
     ref = Reference(sess.X, sess.g, points, exact)
     chk = Checker(sess, ref, points, exact)
+
+    def judge(key, obj, implicit):
+        base = sess.base(key)
+        v, obs = chk.verdict(key, obj)
+        if v == "unchecked":
+            out.classes.append(f"unchecked:{chk.problem.get(key)}")
+            return
+        out.checked.add(base)
+        out.checked.add(f"raises:{base}")
+        if key in sess.branch:
+            out.classes.append(base)
+        if v == "own":
+            obs = dict(obs, key=key, simplify=sess.simplify,
+                       branch=sess.branch.get(key))
+            if implicit:
+                obs["obtained"] = "implicitly (as a dependency); a request " \
+                                  "returns this cached value"
+            out.fails[base] = obs
+        elif v == "inherited":
+            out.classes.append(f"inherited:{base}<-{'+'.join(obs['upstream'])}")
+
     for key in sess.order:
         obj = sess.request(key, deadline)
         if sess.timed_out:
             out.classes.append("inconclusive:budget")
             break
-        base = sess.base(key)
         if key in sess.raised:
+            base = sess.base(key)
             out.fails[f"raises:{base}"] = dict(error=sess.raised[key])
             out.checked.add(f"raises:{base}")
             continue
-        v, obs = chk.verdict(key, obj)
-        if v == "unchecked":
-            out.classes.append(f"unchecked:{chk.problem.get(key)}")
-            continue
-        out.checked.add(base)
-        out.checked.add(f"raises:{base}")
-        if v == "own":
-            obs = dict(obs, key=key, simplify=sess.simplify,
-                       branch=sess.branch.get(key))
-            out.fails[base] = obs
-        elif v == "inherited":
-            out.classes.append(f"inherited:{base}<-{'+'.join(obs['upstream'])}")
-            # the wrong upstream value sits in rel.data and is exactly what a
-            # request for it returns: report the root cause even if the order
-            # does not request it explicitly
-            todo = list(obs["upstream"])
-            while todo:
-                u = todo.pop()
-                ub = sess.base(u)
-                if ub in out.fails or u in sess.order:
-                    continue
-                uv, uobs = chk.verdict(u, sess.rel.data[u])
-                out.checked.add(ub)
-                if uv == "own":
-                    out.fails[ub] = dict(uobs, key=u, simplify=sess.simplify,
-                                         branch=sess.branch.get(u),
-                                         obtained="implicitly, as a "
-                                         f"dependency of {key}")
-                elif uv == "inherited":
-                    todo.extend(uobs["upstream"])
-        if key in sess.branch:
-            out.classes.append(base)
+        judge(key, obj, False)
+    if not sess.timed_out:
+        # keys aurel computed as dependencies: data[key] is what a request for
+        # them returns from now on, so they are checked as well (this is what
+        # makes the root cause of an inherited failure always visible)
+        for key in KEYS:
+            if key not in sess.order and key in sess.rel.data:
+                judge(key, sess.rel.data[key], True)
     out.classes.append("relerr<=1e-%d" % min(
         30, int(-mpmath.log10(max(chk.worst_rel, 1e-30)))))
     out.wall = time.time() - t0
@@ -1094,11 +890,27 @@ def common_classes(case, note):
         note.cls("lorentzian")
 
 
-def tagged_report(run, case, note, tier, simplify_probe):
+_CANON = {}
+
+
+def fails_on_canonical_diagonal(run, name, base, case):
+    """Does the same check fail with this discriminator on a fixed, fully
+    coordinate-dependent diagonal 2D metric (same flag, same orders)?
+    Decided once per process; guards the 'nondiagonal' tag against cases
+    whose own diagonal part is too simple to show the failure."""
+    k = (name, base, case["simplify"])
+    if k not in _CANON:
+        c = dict(case, dim=2, diag=GD2["diag"], off=[], points=GD2["points"])
+        c.pop("budget", None)
+        _CANON[k] = base in run(c).fails
+    return _CANON[k]
+
+
+def tagged_report(run, name, case, note, tier, simplify_probe):
     """Run `run(case)`; give every failing base discriminator the tags that
     are *necessary* for it: 'nondiagonal' iff the same check passes on the
-    diagonal part of the metric (same flag, same order); 'simplify=False'
-    see simplify_needed."""
+    diagonal part of the metric (same flag, same order) and on a canonical
+    diagonal metric; 'simplify=False' see simplify_needed."""
     out = run(case)
     note.cls(*out.classes)
     if not out.fails:
@@ -1110,7 +922,8 @@ def tagged_report(run, case, note, tier, simplify_probe):
         if nd:
             if base not in probe.checked:
                 note.cls("probe-undecided")
-            elif base not in probe.fails:
+            elif base not in probe.fails and \
+                    not fails_on_canonical_diagonal(run, name, base, case):
                 tags.append("nondiagonal")
         if simplify_probe and not case["simplify"] and not tags:
             if simplify_needed(base, case, tier):
@@ -1121,8 +934,8 @@ def tagged_report(run, case, note, tier, simplify_probe):
 def make_test_textbook(tier):
     def test(case, note):
         common_classes(case, note)
-        tagged_report(lambda c: run_textbook(c, tier), case, note, tier,
-                      simplify_probe=True)
+        tagged_report(lambda c: run_textbook(c, tier), "textbook", case,
+                      note, tier, simplify_probe=True)
     return test
 
 
@@ -1147,18 +960,15 @@ def run_pair(case, tier, which):
     exact = is_exact(case)
     points = points_of(case)
     ref = Reference(A.X, A.g, points, exact)   # only for the scale
-    got = {}
-    for tag, S in (("A", A), ("B", B)):
+    for S in (A, B):
         for key in S.order:
-            obj = S.request(key, deadline)
+            S.request(key, deadline)
             if S.timed_out:
                 out.classes.append("inconclusive:budget")
                 break
             if key in S.raised:
                 out.fails[f"raises:{S.base(key)}"] = dict(error=S.raised[key])
                 out.checked.add(f"raises:{S.base(key)}")
-                continue
-            got[(tag, key)] = obj
         if S.timed_out:
             break
 
@@ -1200,41 +1010,30 @@ def run_pair(case, tier, which):
         brs = sorted({str(A.branch.get(key)), str(B.branch.get(key))})
         return f"{key}:" + "-vs-".join(brs)
 
-    for key in A.order:
-        if ("A", key) not in got or ("B", key) not in got:
-            continue
-        base = base_of(key)
-        d = differs(key)
-        if d is None:
-            out.classes.append("unchecked:eval")
-            continue
-        out.checked.add(base)
-        if key in BRANCHY:
-            out.classes.append(base)
-        if d is False:
-            continue
-        ups = [u for u in closure(key) if differs(u)]
-        if ups:
-            out.classes.append(f"inherited:{key}<-{'+'.join(sorted(ups))}")
-            # report the first divergent upstream key(s) if the order does not
-            # request them (their values sit in rel.data and are what a
-            # request returns)
-            for u in ups:
-                if u in A.order and u in B.order:
-                    continue
-                if any(differs(w) for w in closure(u)):
-                    continue
-                ub = base_of(u)
-                out.checked.add(ub)
-                out.fails.setdefault(ub, dict(
-                    differs(u), key=u, obtained="implicitly, as a dependency "
-                    f"of {key}", instance_first=dict(
-                        simplify=A.simplify, order=A.order),
-                    instance_second=dict(simplify=B.simplify, order=B.order)))
-            continue
-        out.fails[base] = dict(d, key=key, instance_first=dict(
-            simplify=A.simplify, order=A.order), instance_second=dict(
-            simplify=B.simplify, order=B.order))
+    if not (A.timed_out or B.timed_out):
+        for key in KEYS:
+            if key not in A.rel.data or key not in B.rel.data:
+                continue
+            base = base_of(key)
+            d = differs(key)
+            if d is None:
+                out.classes.append("unchecked:eval")
+                continue
+            out.checked.add(base)
+            if key in BRANCHY:
+                out.classes.append(base)
+            if d is False:
+                continue
+            ups = [u for u in closure(key) if differs(u)]
+            if ups:
+                out.classes.append(
+                    f"inherited:{key}<-{'+'.join(sorted(ups))}")
+                continue
+            out.fails[base] = dict(
+                d, key=key,
+                requested=(key in A.order, key in B.order),
+                instance_first=dict(simplify=A.simplify, order=A.order),
+                instance_second=dict(simplify=B.simplify, order=B.order))
     out.wall = time.time() - t0
     return out
 
@@ -1245,8 +1044,8 @@ def make_test_pair(tier, which):
         if which == "order":
             note.cls("same-order" if case["order"] == case["order2"]
                      else "different-order")
-        tagged_report(lambda c: run_pair(c, tier, which), case, note, tier,
-                      simplify_probe=False)
+        tagged_report(lambda c: run_pair(c, tier, which), which, case, note,
+                      tier, simplify_probe=False)
     return test
 
 
@@ -1326,7 +1125,8 @@ def order_strategy(draw, full_bias=False):
     perm = list(draw(st.permutations(KEYS)))
     if full_bias and draw(st.booleans()):
         return perm
-    return perm[:draw(st.integers(1, len(KEYS)))]
+    return perm[:draw(st.sampled_from([1, 2, 3, 4, 5, 6, 7, 8, 9, 10, 10,
+                                       10]))]
 
 
 @st.composite
@@ -1352,7 +1152,7 @@ MID4 = dict(maxd=2, mind=1, maxo=1, p_off=34, max_pairs=3,
             max_pairs_trans=1, kinds=K3)
 # simplify=True is expensive (minutes for a generic 3D non-diagonal metric):
 # keep the expressions tiny
-TINY2 = dict(maxd=1, mind=0, maxo=1, p_off=50, kinds=K4)
+TINY2 = dict(maxd=1, mind=1, maxo=1, p_off=50, kinds=K4)
 SMALL2 = dict(maxd=2, mind=1, maxo=1, p_off=50, kinds=K4)
 TINY3 = dict(maxd=1, mind=0, maxo=1, p_off=34, max_pairs=1, max_vars=2,
              kinds=K4)
@@ -1416,12 +1216,11 @@ G3S = dict(dim=3,
                  dict(sign=1, D=5, terms=[])],
            off=[dict(i=0, j=1, terms=[T((1, 4), "lin", 1)])],
            points=[[[3, 4], [-2, 3], [5, 7]], [[-5, 7], [1, 2], [-3, 2]]])
-G3D = dict(dim=3,
+G3D = dict(G3S, off=[])
+GD2 = dict(dim=2,
            diag=[dict(sign=1, D=3, terms=[T((1, 2), "sq", 1)]),
-                 dict(sign=1, D=4, terms=[T((1, 3), "mix", 0, 2)]),
-                 dict(sign=1, D=5, terms=[T((1, 4), "lin", 0)])],
-           off=[],
-           points=[[[3, 4], [-2, 3], [5, 7]], [[-5, 7], [1, 2], [-3, 2]]])
+                 dict(sign=1, D=4, terms=[T((1, 3), "mix", 0, 1)])],
+           off=[], points=[[[3, 4], [-2, 3]], [[-5, 7], [1, 2]]])
 
 
 def fixed(metric_, simplify, order, **kw):
@@ -1442,14 +1241,14 @@ def subchecks(tier):
                                 case_strategy(s_sizes, True, "order"))
     return [
         Sub("textbook_simplify", case_strategy(s_sizes, True),
-            make_test_textbook(tier), 8 if q else 160,
+            make_test_textbook(tier), 24 if q else 160,
             generic=[fixed(G2, True, DIRECT_FIRST),
                      fixed(G2, True, UDDD_FIRST),
                      fixed(G3S, True, DIRECT_FIRST[:4]),
-                     fixed(G3D, True, UDDD_FIRST[:8])],
+                     fixed(G3D, True, UDDD_FIRST)],
             shards=8 if q else 16, shrink_quick=False, max_rounds=3),
         Sub("textbook_nosimplify", case_strategy(ns_sizes, False),
-            make_test_textbook(tier), 100 if q else 4000,
+            make_test_textbook(tier), 160 if q else 4000,
             generic=[fixed(G3, False, DIRECT_FIRST),
                      fixed(G3, False, UDDD_FIRST),
                      fixed(G4, False, UDDD_FIRST),
@@ -1457,14 +1256,14 @@ def subchecks(tier):
                      fixed(G2, False, UDDD_FIRST)],
             shards=8 if q else 16, shrink_quick=False, max_rounds=6),
         Sub("simplify_indep", case_strategy(s_sizes, True),
-            make_test_pair(tier, "simplify"), 4 if q else 100,
+            make_test_pair(tier, "simplify"), 12 if q else 100,
             generic=[fixed(G2, True, UDDD_FIRST[:7]),
                      fixed(G3D, True, DIRECT_FIRST[:2])],
             shards=4 if q else 16, shrink_quick=False, max_rounds=3),
         Sub("order_indep", order_cases, make_test_pair(tier, "order"),
-            60 if q else 1500,
+            96 if q else 1500,
             generic=[fixed(G3, False, DIRECT_FIRST, order2=UDDD_FIRST),
                      fixed(G2, True, DIRECT_FIRST[:2],
                            order2=UDDD_FIRST[:6])],
-            shards=6 if q else 16, shrink_quick=False, max_rounds=4),
+            shards=8 if q else 16, shrink_quick=False, max_rounds=4),
     ]
